@@ -9,9 +9,20 @@ Import ListNotations.
 Inductive call :=
 | CSimplify (key : str)
 | CChange (key : str) (new : cname)
-| CSubset (sd : option nat) (dim idx : nat) (empty : option jv).      (* empty = the content make_empty gives for the result *)
+| CSubset (sd : option nat) (dim idx : nat) (empty : option jv)       (* empty = the content make_empty gives for the result *)
+| CInsertSlice (sd : option nat) (key : str) (oshape : list nat) (ons : option nat) (ocontent : jv)    (* the instance that is read *)
+| CInsertNonSlice (sd : option nat) (key : str) (oshape : list nat) (ons : option nat) (ocontent : jv)
+| CInsertSample (sd : option nat) (key : str) (base : str) (oshape : list nat) (ons : option nat) (ocontent : jv)
+(* _insert(dim, other): the slice normals are tokens (equal iff np.allclose holds); the method goes through a set of keys, whose
+   iteration order is not modelled: the resulting content is compared up to the order of the keys (OUnitStU) *)
+| CInsert (sd : option nat) (dim : nat) (normal onormal : option nat) (oshape : list nat) (ons : option nat) (ocontent : jv)
+(* from_sequence(seq, dim, None, slice_dim): every input with its header (shape, slice dim, n_slices, slice normal token) and content;
+   empty / rnormal = what make_empty gives for the result (content, slice normal token) *)
+| CFromSeq (dim : nat) (slice_dim : option nat) (inputs : list (list nat * option nat * option nat * option nat * jv))
+           (empty : option jv) (rnormal : option nat).
 
-Inductive obs := OBoolSt (b : bool) (st : jv) | OUnitSt (st : jv) | OContent (st : jv) | OErr (e : err).
+Inductive obs := OBoolSt (b : bool) (st : jv) | OUnitSt (st : jv) | OUnitStU (st : jv) | OContent (st : jv) | OErr (e : err)
+  | OErrU.      (* some exception: which one comes first depends on the order in which a set of keys is iterated *)
 
 Record case := mk_case { c_shape : list nat; c_ns : option nat; c_content : jv; c_call : call; c_obs : obs }.
 
@@ -28,10 +39,48 @@ Definition run (c : case) : obs :=
                           classifications (c_shape c) sd (c_ns c) tt tt preserving_changes (okeys const_tests) (okeys repeat_tests)
                           (c_content c) dim idx with
       | Ok st => OContent st | Err e => OErr e end
+  | CInsertSlice sd k oshape ons ocontent =>
+      match insert_slice_st classifications (c_shape c) sd (c_ns c) preserving_changes (c_content c) k
+                            classifications oshape ons preserving_changes ocontent with
+      | Ok (_, st) => OUnitSt st | Err e => OErr e end
+  | CInsertNonSlice sd k oshape ons ocontent =>
+      match insert_non_slice_st classifications (c_shape c) sd (c_content c) k classifications oshape ons preserving_changes ocontent with
+      | Ok (_, st) => OUnitSt st | Err e => OErr e end
+  | CInsert sd dim nrm onrm oshape ons ocontent =>
+      match insert_st classifications (c_shape c) sd (c_ns c) preserving_changes nrm (c_content c) dim
+                      classifications oshape ons preserving_changes onrm ocontent with
+      | Ok (_, st) => OUnitStU st | Err e => OErrU end
+  | CFromSeq dim slice_dim inputs empty rnormal =>
+      match from_sequence_st (fun _ _ => match empty with Some c0 => Ok c0 | None => Err EValue end) (fun _ => Ok rnormal)
+                             classifications None preserving_changes (okeys const_tests) (okeys repeat_tests) JNull
+                             (map (fun i => match i with (sh, sd, ns, nrm, ct) =>
+                                     (classifications, sh, sd, ns, tt, tt, preserving_changes, okeys const_tests, okeys repeat_tests, nrm, ct) end)
+                                  inputs)
+                             dim None slice_dim with
+      | Ok st => OUnitStU st | Err e => OErrU end
+  | CInsertSample sd k base oshape ons ocontent =>
+      match insert_sample_st classifications (c_shape c) sd (c_ns c) preserving_changes (c_content c) k
+                             classifications oshape ons preserving_changes ocontent base with
+      | Ok (_, st) => OUnitSt st | Err e => OErr e end
+  end.
+
+(** equality of JSON values up to the order of the members of objects (nesting depth bounded by the fuel) *)
+Fixpoint jv_equ (fuel : nat) (a b : jv) : bool :=
+  match fuel with
+  | O => false
+  | S f =>
+      match a, b with
+      | JObj x, JObj y => Nat.eqb (length x) (length y)
+                          && forallb (fun kv => match jassoc (fst kv) y with Some w => jv_equ f (snd kv) w | None => false end) x
+      | JArr x, JArr y => Nat.eqb (length x) (length y) && forallb (fun p => jv_equ f (fst p) (snd p)) (combine x y)
+      | _, _ => jv_eqb a b
+      end
   end.
 
 Definition obs_eqb (a b : obs) : bool :=
   match a, b with
+  | OUnitStU s, OUnitStU t => jv_equ 12 s t
+  | OErrU, OErrU => true
   | OBoolSt x s, OBoolSt y t => Bool.eqb x y && jv_eqb s t
   | OUnitSt s, OUnitSt t => jv_eqb s t
   | OContent s, OContent t => jv_eqb s t
